@@ -16,8 +16,13 @@ def build(case, order):
             n.defense_status = case['st'][i - 1] / 10
         if kind in ('exist', 'notExist'):
             n.existence_status = case['st'][i - 1] == 10
+        if kind == 'defense' and case.get('supp'):
+            n.tags = ['suppress']          # suppression concerns the defense surface, not viability / necessity
         if case['dist'][i - 1]:
-            n.ttc = {'type': 'function', 'name': 'Exponential', 'arguments': [0.1]}
+            # any named distribution other than Enabled / Disabled
+            n.ttc = [{'type': 'function', 'name': 'Exponential', 'arguments': [0.1]},
+                     {'type': 'function', 'name': 'Bernoulli', 'arguments': [0.5]},
+                     {'type': 'function', 'name': 'Gamma', 'arguments': [1.5, 2.0]}][i % 3]
         elif kind == 'defense':
             n.ttc = {'type': 'function', 'name': 'Enabled' if case['st'][i - 1] == 10 else 'Disabled', 'arguments': []}
         nodes[i] = n
@@ -71,7 +76,7 @@ class Adapter:
             res['div'].append(self.div(case, 'necessity', {'order': o, 'want': case['N'], 'got': results[o][1],
                                                            'orders_wrong': len(wrongN), 'orders': len(results)}, feats))
         if any(case['par'][i] for i in range(n)):
-            res['nontrivial'] = json.dumps([case['kind'], case['par'], case['st'], case['dist']])
+            res['nontrivial'] = json.dumps([case['kind'], case['par'], case['st'], case['dist'], case.get('supp')])
         res['sample'] = {k: case[k] for k in ('n', 'kind', 'par', 'st', 'dist', 'V', 'N')}
         return res
 
